@@ -317,6 +317,17 @@ def spec(w, value, warns, depth=None):
 
 
 # ---------------------------------------------------------------------------------------------------- scenarios
+def _share_counts(repo):
+    from engine import thresholds
+    m = repo.module('prettyprinter')
+    nodes = [f.node for f in m.funcs.values() if f.name.startswith('_run_pretty') or f.name in ('pretty_python_value', '_pretty_recursion')]
+    ctx = m.classes.get('PrettyContext')
+    if ctx is not None:
+        nodes.append(ctx.node)
+    mined, _ = thresholds.mine([m], fns=nodes, most=600)
+    return sorted({10} | {t + 2 for t in mined})
+
+
 def scenarios(w):
     """(label, value, property the scenario is about)"""
     out = []
@@ -363,6 +374,13 @@ def scenarios(w):
     out.append(('cycle through a trailing-commented reference', n('list', 'top', [w.trailing(x, 'first'), x]), 'C13'))
     sh = n('box', 'sh', [a])
     out.append(('shared box, once with a trailing comment', n('list', 'top', [w.trailing(sh, 'tc'), sh, w.trailing(sh, 'tc2')]), 'C13'))
+    # the same (acyclic) container referenced more often than every size constant the wrapper and the context compare against - and
+    # than a fixed small count: every reference is printed in full, none is mistaken for a back-reference
+    for cnt in _share_counts(w.repo):
+        sh = n('pylist', 's', [a])
+        out.append(('built-in list referenced %d times' % cnt, n('pylist', 'top', [sh] * cnt), 'C13'))
+        shb = n('box', 'sb', [a, b])
+        out.append(('model container referenced %d times' % cnt, n('list', 'top', [shb] * cnt), 'C13'))
     # failures
     bad = n('bad', 'bad')
     out.append(('failing printer between siblings', n('list', 'top', [a, bad, c]), 'C14'))
